@@ -1,7 +1,7 @@
 """C06 (constructors): dataclass / NamedTuple constructor calls lower to dictionaries binding arguments as Python does."""
 import ast
 import inspect
-from dataclasses import dataclass
+from dataclasses import dataclass, field
 from typing import NamedTuple
 
 from func_adl.ast.syntatic_sugar import resolve_syntatic_sugar
@@ -35,6 +35,22 @@ class D4:
     s: int
 
 
+@dataclass
+class D5:
+    "a derived field that is not a constructor parameter sits between two that are"
+    x: int
+    r: int = field(init=False, default=0)
+    y: int = 0
+
+
+@dataclass
+class D6:
+    "a keyword-only field declared before a positional one"
+    a: int
+    k: int = field(kw_only=True, default=5)
+    b: int = 1
+
+
 class N1(NamedTuple):
     a: int
 
@@ -57,7 +73,7 @@ class N4(NamedTuple):
     s: int
 
 
-CLASSES = [D1, D2, D3, D4, N1, N2, N3, N4]
+CLASSES = [D1, D2, D3, D4, N1, N2, N3, N4, D5, D6]
 PERMS = {0: [()], 1: [(0,)], 2: [(0, 1), (1, 0)], 3: [(0, 1, 2), (2, 1, 0), (1, 0, 2), (0, 2, 1), (1, 2, 0), (2, 0, 1)],
          4: [(0, 1, 2, 3), (3, 2, 1, 0), (1, 0, 3, 2), (2, 3, 0, 1)]}
 
@@ -68,13 +84,13 @@ def fields_of(cls):
 
 def c06b(code: int, npos: int, kwmask: int, perm: int, extra: int, v0: int, v1: int, v2: int, v3: int) -> str:
     """
-    pre: LO <= code < HI and 0 <= code < 16
+    pre: LO <= code < HI and 0 <= code < 20
     pre: 0 <= npos <= 5 and 0 <= kwmask < 16 and 0 <= perm < 6 and 0 <= extra <= 2
     post: (_ == '') != TWIN
     """
-    code = pick(code, max(LO, 0), min(HI, 16))
-    cls = CLASSES[code % 8]
-    inside = code // 8          # 0: top of a lambda body, 1: nested in a tuple inside an inner lambda
+    code = pick(code, max(LO, 0), min(HI, 20))
+    cls = CLASSES[code % 10]
+    inside = code // 10          # 0: top of a lambda body, 1: nested in a tuple inside an inner lambda
     names = fields_of(cls)
     n = len(names)
     npos, kwmask, perm, extra = pick(npos, 0, 6), pick(kwmask, 0, 16), pick(perm, 0, 6), pick(extra, 0, 3)
@@ -91,15 +107,14 @@ def c06b(code: int, npos: int, kwmask: int, perm: int, extra: int, v0: int, v1: 
     kws = [ast.keyword(names[i], ast.Constant(vals[i])) for i in kwidx]
     if extra == 1:
         kws.append(ast.keyword("nosuchfield", ast.Constant(7)))
-    surplus = npos > n
     unknown = extra == 1
     expect = None
-    if not surplus and not unknown:
-        expect = {}
-        for i in range(npos):
-            expect[names[i]] = vals[i]
-        for i in kwidx:
-            expect[names[i]] = vals[i]
+    try:
+        ba = inspect.signature(cls).bind_partial(*[vals[i] for i in range(npos)], **{names[i]: vals[i] for i in kwidx})
+        if not unknown:
+            expect = dict(ba.arguments)
+    except TypeError:
+        expect = None       # surplus positional arguments, or an argument Python's constructor does not accept this way
     ctor = ast.Call(ast.Constant(cls), args, kws)
     if inside == 0:
         q = lam("e", ctor)
